@@ -163,6 +163,8 @@ CHECKS = {
         runs=[
             dict(name="fold", run="^TestPropFold$", checks=(500, 5000), shards=(4, 16), shrinktime="20s"),
             dict(name="concurrent", run="^TestPropConcurrentFold$", checks=(60, 600), shards=(4, 16), shrinktime="5s"),
+            dict(name="qcoll", run="^TestPropQueryCollection$", checks=(150, 1500), shards=(4, 16), shrinktime="10s"),
+            dict(name="regress", run="^TestRegress", shards=(1, 1)),
         ],
     ),
     "C16": dict(
